@@ -1334,7 +1334,17 @@ def _query(M: Machine, step: int, op: dict):
         em, m = e
         cells = m.cells
         simple = all(c.cls in ("SphericalDroplet", "DiffuseDroplet") for c in cells)
+        # for size statistics and the total volume also 2D perturbed droplets, whose volume is
+        # not that of a disc of their radius: pi r^2 (1 + sum(a_k^2) / 2)
+        simple_vol = all(c.cls in ("SphericalDroplet", "DiffuseDroplet", "PerturbedDroplet2D")
+                         for c in cells)
         same_dim = len({c.dim for c in cells}) <= 1
+
+        def cvol(c):
+            if c.cls == "PerturbedDroplet2D":
+                amps = [float(a) for a in np.atleast_1d(c.rec["amplitudes"])]
+                return math.pi * c.radius ** 2 * (1 + math.fsum(a * a for a in amps) / 2)
+            return vol(c.radius, c.dim)
         try:
             if kind == "len_dim":
                 if len(em) != len(cells):
@@ -1343,7 +1353,7 @@ def _query(M: Machine, step: int, op: dict):
                         and _lay(np.dtype(m.dtype)) == _lay(cells[0].rec):
                     bad(f"dim = {em.dim}, members have dimension {cells[0].dim}", "dim")
             elif kind in ("stats", "stats_novanished"):
-                if not (simple and same_dim):
+                if not (simple_vol and same_dim):
                     return "not simple"
                 incl = kind == "stats"
                 st = em.get_size_statistics(incl_vanished=incl)
@@ -1354,7 +1364,7 @@ def _query(M: Machine, step: int, op: dict):
                     bad(f"size statistics count {st['count']} != {len(use)}", "stats_count")
                 elif use:
                     rs = [c.radius for c in use]
-                    vs = [vol(c.radius, c.dim) for c in use]
+                    vs = [cvol(c) for c in use]
                     for key, xs in (("radius", rs), ("volume", vs)):
                         mean = math.fsum(xs) / len(xs)
                         std = math.sqrt(math.fsum((x - mean) ** 2 for x in xs) / len(xs))
@@ -1367,9 +1377,9 @@ def _query(M: Machine, step: int, op: dict):
                     pass  # numpy mean of an empty list: nan with a warning; not asserted
                 cnt.inc("queries.stats")
             elif kind == "volume":
-                if not (simple and same_dim):
+                if not (simple_vol and same_dim):
                     return "not simple"
-                want = math.fsum(vol(c.radius, c.dim) for c in cells)
+                want = math.fsum(cvol(c) for c in cells)
                 if not close(em.total_droplet_volume, want, 1e-11):
                     bad(f"total_droplet_volume {em.total_droplet_volume!r} != {want!r}", "volume")
                 cnt.inc("queries.volume")
